@@ -16,6 +16,31 @@ theorem blockData_binv (sd : SlotData) (h : H) (bd : BlockData) (hs : SInv sd) (
     · exact ⟨(hs.rep h bd hb).1, (hs.rep h bd hb).2.2⟩
   · exact ⟨(hs.rep h bd hb).1, (hs.rep h bd hb).2.2⟩
 
+theorem blockData_flagInv (sd : SlotData) (h : H) (bd : BlockData) (hs : SInv sd) (hb : blockData sd h = some bd) :
+    FlagInv bd := by
+  unfold blockData at hb
+  split at hb
+  · split at hb
+    · simp at hb; subst hb; exact hs.flg.1
+    · exact hs.flg.2 h bd hb
+  · exact hs.flg.2 h bd hb
+
+/-- a shred served for slice `i` of a block whose last slice is `l` carries the flag `i = l` -/
+theorem getShred_flag (sd : SlotData) (h : H) (bd : BlockData) (l i j : Nat) (s : Shred) (hs : SInv sd)
+    (hb : blockData sd h = some bd) (hl : bd.lastSlice = some l) (hg : getShred sd h i j = some s) :
+    s.isLast = decide (i = l) := by
+  have hf := blockData_flagInv sd h bd hs hb
+  simp only [getShred, hb, Option.bind_some] at hg
+  cases harr : bd.shreds i with
+  | none => simp [harr] at hg
+  | some arr =>
+    simp only [harr, Option.bind_some] at hg
+    rw [hf i arr j s harr hg, hl]
+    apply decide_eq_decide.mpr
+    constructor
+    · intro h; injection h with h; exact h.symm
+    · intro h; rw [h]
+
 theorem present_head (arr : ShredArr) (s0 : Shred) (h : arr 0 = some s0) : (present arr).head? = some s0 := by
   unfold present
   have : TOTAL_SHREDS = 63 + 1 := rfl
@@ -142,7 +167,7 @@ theorem answer_held_verifies (sd : SlotData) (b : Bid) (blk : Block) (hs : SInv 
       ∀ i, i ≤ l → ∃ root π, answer sd (.root b i) = some (.sliceRoot (.root b i) root π) ∧
         checkProof root i b.hash π = true ∧
         ∀ j, j < TOTAL_SHREDS → ∃ s, answer sd (.shred b i j) = some (.shred (.shred b i j) b.slot s true) ∧
-          s.slice = i ∧ s.idx = j ∧ s.root = root := by
+          s.slice = i ∧ s.idx = j ∧ s.root = root ∧ s.isLast = decide (i = l) := by
   have hhash := getBlock_hash sd b.hash blk hs.ok hheld
   unfold getBlock at hheld
   cases hb : blockData sd b.hash with
@@ -176,7 +201,7 @@ theorem answer_held_verifies (sd : SlotData) (b : Bid) (blk : Block) (hs : SInv 
         exact this
       · intro j hj
         obtain ⟨s, hs1, hs2, hs3, hs4⟩ := h4 j hj
-        exact ⟨s, by simp only [answer, hs1], hs2, hs3, hs4⟩
+        exact ⟨s, by simp only [answer, hs1], hs2, hs3, hs4, getShred_flag sd b.hash bd l i j s hs hb hl hs1⟩
 
 
 /-! ### a peer that holds the leader's block answers with `honestResp` -/
@@ -300,6 +325,15 @@ theorem repInv_begin (B : HBlock) (env : Nat → Content) (cap : Nat) (hn : 0 < 
   · intro i root h
     simp only [sendRequest_roots] at h
     rw [hnoroots] at h; simp at h
+  · intro i h
+    exfalso
+    rcases h with h | h
+    · simp only [sendRequest_outstanding] at h
+      rcases h with h | h
+      · exact absurd rfl (hnoreq _ h)
+      · simp at h
+    · simp only [sendRequest_roots] at h
+      rw [hnoroots] at h; simp at h
   · intro i h
     simp only [sendRequest_outstanding] at h
     rcases h with h | h
